@@ -119,7 +119,10 @@ func ConfText(pools []Pool) string {
 			c.NodeSubnets = append(c.NodeSubnets, n.String())
 		}
 		for _, r := range p.Ranges {
-			if r[0] == r[1] {
+			if r[0] == r[1] && r[0]&1 == 1 {
+				// a single address may also be written as a range with equal ends
+				c.IPs = append(c.IPs, IPStr(r[0])+"~"+IPStr(r[0]))
+			} else if r[0] == r[1] {
 				c.IPs = append(c.IPs, IPStr(r[0]))
 			} else {
 				c.IPs = append(c.IPs, IPStr(r[0])+"~"+IPStr(r[1]))
